@@ -2,6 +2,7 @@ package tlv
 
 import (
 	"bytes"
+	"encoding/asn1"
 	"fmt"
 	"strings"
 
@@ -54,9 +55,8 @@ func (node TlvSimpleNode) stringWithIndent(indent int) string {
 	var sb strings.Builder
 	sb.WriteString(indentString(indent))
 	sb.WriteString(fmt.Sprintf("%02x: %x", node.tag, node.value))
-	if node.tag == 0x06 {
+	if tmpOid, isOid := node.decodeOid(); isOid {
 		// special handling for ASN1 OIDs
-		tmpOid := oid.DecodeAsn1objectId(node.value)
 		tmpOidDesc := oid.OidDesc(tmpOid)
 		sb.WriteString(fmt.Sprintf(" [%s: %s]", tmpOid.String(), tmpOidDesc))
 	} else if utils.PrintableBytes(node.value) {
@@ -65,6 +65,23 @@ func (node TlvSimpleNode) stringWithIndent(indent int) string {
 	}
 	sb.WriteString("\n")
 	return sb.String()
+}
+
+// decodes the value as ASN1 OID, if the node is tagged as one and the value is well-formed
+// NB nodes come from untrusted data and String() is also used for logging, so a malformed OID
+// must not panic (oid.DecodeAsn1objectId does) - it is rendered like any other value instead
+func (node TlvSimpleNode) decodeOid() (out asn1.ObjectIdentifier, ok bool) {
+	if node.tag != 0x06 {
+		return nil, false
+	}
+
+	defer func() {
+		if recover() != nil {
+			out, ok = nil, false
+		}
+	}()
+
+	return oid.DecodeAsn1objectId(node.value), true
 }
 
 func (node TlvSimpleNode) String() string {
